@@ -24,6 +24,8 @@ def oracle(cs, h, lines):
         fails.append('tracer crashed: ' + [l for l in lines if l.startswith('killed')][0])
     elif any('runtime error' in l or 'AddressSanitizer' in l for l in lines):
         fails.append('sanitizer report')
+    if any(l.startswith('ctx-overrun') for l in lines):
+        fails.append('store past the end of the context structure (footprint canary of the runner)')
     return fails
 
 
